@@ -257,7 +257,7 @@ def answer (line : String) : String :=
     | some s =>
       s!"ettext={showStr (etEscapeText s)} etattr={showStr (etEscapeAttr s)} lxtext={showStr (lxEscapeText s)} " ++
       s!"rt={showOptStr (xmlReadText (etEscapeText s))} ra={showOptStr (xmlReadAttr (etEscapeAttr s))} " ++
-      s!"rl={showOptStr (xmlReadText (lxEscapeText s))} cr={b01 (hasCR s)}"
+      s!"rl={showOptStr (xmlReadText (lxEscapeText s))} rp={showOptStr (xmlReadText (repoEscapeText 57344 s))} cr={b01 (hasCR s)}"
   else if kind == "XREAD" then
     match parseCps (field fs "t") with
     | none => "bad-string"
